@@ -1019,11 +1019,15 @@ pub fn check_c17(h: &Hist) -> POut {
             None => 0,
         };
         out.nontrivial = true;
-        let lookups = h.ops.iter().filter(|o| matches!(o.op, Op::Get { .. } | Op::GetMut { .. }) && o.inv_seq > since && o.ret_seq_or_max() < cp.seq).count() as u64;
+        let lookups: u64 = h.ops.iter().filter(|o| o.inv_seq > since && o.ret_seq_or_max() < cp.seq).map(|o| o.op.lookups()).sum();
         if m.hits + m.misses != lookups {
             out.violations.push(viol("C17", "R-hits-plus-misses", cp.seq, "hits + misses differs from the number of lookups", format!("hits={} misses={} lookups={}", m.hits, m.misses, lookups)));
         }
-        let hits = h.ops.iter().filter(|o| o.inv_seq > since && o.ret_seq_or_max() < cp.seq && matches!(o.res, Some(Res::Got(Some(_))) | Some(Res::GotMut(Some(_))))).count() as u64;
+        let hits: u64 = h.ops.iter().filter(|o| o.inv_seq > since && o.ret_seq_or_max() < cp.seq).map(|o| match (&o.op, &o.res) {
+            (Op::GetMany { .. }, Some(Res::Num(n))) => *n as u64,
+            (_, Some(Res::Got(Some(_)))) | (_, Some(Res::GotMut(Some(_)))) => 1,
+            _ => 0,
+        }).sum();
         if m.hits != hits {
             out.violations.push(viol("C17", "R-hits", cp.seq, "hits differs from the number of lookups that returned a value", format!("hits={} lookups that hit={}", m.hits, hits)));
         }
